@@ -86,6 +86,9 @@ func GenPeerScenario(rng *rand.Rand, id int) *PeerScenario {
 	if sc.EarlyFQ && nLib > 5 {
 		nLib = 5
 	}
+	// the peer may say FF in its first turn although it has messages (they "arrive later"); only meaningful when the
+	// session goes on, i.e. the peer is slave and the library has something to send
+	sc.FFFirst = !sc.Master && nLib > 0 && rng.Intn(3) == 0
 	for i := 0; i < nLib; i++ {
 		ms := MsgSpec{MID: randMID(rng, used), Prec: []int{3, 3, 2, 1, 0}[rng.Intn(5)], Size: pick(rng, map[string]int{"tiny": 3, "small": 4, "medium": 2}),
 			NonASCII: rng.Intn(4) == 0, Att: rng.Intn(3) / 2}
